@@ -24,7 +24,7 @@
      "interior_e_le_N"     is_interior accepts e = N: the block reads one cell past the domain
      "widths_unsliced"     the block path takes the cell widths of the domain start instead of the region's
      "mirror_src_swapped"  the mirror halo takes padded index 1 for on-plane components and 2 for the others     *)
-EXTENDS ColocateDefs, TLC
+EXTENDS ColocateDefs, TLC, SequencesExt
 
 CONSTANTS NX, NY, NZ,     \* lattice
           Variant,        \* "doc" or a negative instance
@@ -64,16 +64,14 @@ Label(p) == 1 + p[1] + NX * (p[2] + NY * p[3])
 \* f = 0, 1: generic;  f = 2: a single E component and a single H component with injective labels;  f >= 3: generic again
 EField(f) == Arr(LAMBDA c, p :
     IF f = 2 THEN (IF c = 1 THEN Label(p) ELSE 0)
-    ELSE ((f + 2) * (7 * c + 3) + 13 * p[1] + 5 * p[2] * p[2] + 11 * p[1] * p[3] + 17 * p[3] + 3 * c * p[2]) % 23 - 11)
+    ELSE (((f + 2) * (7 * c + 3) + 13 * p[1] + 5 * p[2] * p[2] + 11 * p[1] * p[3] + 17 * p[3] + 3 * c * p[2]) % 23) - 11)
 HField(f) == Arr(LAMBDA c, p :
     IF f = 2 \/ f = 3 THEN (IF c = 2 THEN (f - 1) * Label(p) ELSE 0)
-    ELSE ((f + 1) * (5 * c + 1) + 7 * p[1] * p[1] + 19 * p[2] + 3 * p[2] * p[3] + 29 * p[3] + c * p[1]) % 19 - 9)
+    ELSE (((f + 1) * (5 * c + 1) + 7 * p[1] * p[1] + 19 * p[2] + 3 * p[2] * p[3] + 29 * p[3] + c * p[1]) % 19) - 9)
 
 \* ---------------------------------------------------------------- detectors: every box, exact on / off
-RECURSIVE SeqOf(_)
-SeqOf(S) == IF S = {} THEN << >> ELSE LET x == CHOOSE x \in S : TRUE IN << x >> \o SeqOf(S \ {x})
 Boxes == { b \in Intervals(NX) \X Intervals(NY) \X Intervals(NZ) : TRUE }
-Dets == SeqOf({ [ s |-> << b[1][1], b[2][1], b[3][1] >>, e |-> << b[1][2], b[2][2], b[3][2] >>, exact |-> x ] : b \in Boxes, x \in BOOLEAN })
+Dets == SetToSeq({ [ s |-> << b[1][1], b[2][1], b[3][1] >>, e |-> << b[1][2], b[2][2], b[3][2] >>, exact |-> x ] : b \in Boxes, x \in BOOLEAN })
 NoDet == [ s |-> << 0, 0, 0 >>, e |-> << 0, 0, 0 >>, exact |-> FALSE ]
 Shape(d) == << d.e[1] - d.s[1], d.e[2] - d.s[2], d.e[3] - d.s[3] >>
 
